@@ -479,27 +479,72 @@ func rlValidateDriver(raw json.RawMessage) *Out {
 				itemIdx = cc.Bad[0] - 1
 			}
 		} else {
+			first := -2
 			for i, id := range vd.ids {
-				attr := rlConstraintAttr(id)
 				ix := vd.idx[i]
+				if first == -2 {
+					first = ix
+				}
+				if ix != first {
+					continue // one item (or the field itself) names the finding; other items fail for their own reasons
+				}
+				attr := rlConstraintAttr(id)
 				if attr == "range" {
-					// combined range constraint (gt_lt, gte_lte, ...): the candidate's side names the bound
+					// combined range constraint "<lower op>_<upper op>[_exclusive]": the side on which the candidate sits
 					cl := class
 					if ix >= 0 && ix < len(cc.Cand.Items) {
 						cl = rlCandClass(rlItemDecl(d), cc.Cand.Items[ix])
 					}
-					if strings.Contains(cl, "max") {
+					ops := strings.Split(id[strings.LastIndex(id, ".")+1:], "_")
+					switch {
+					case strings.Contains(cl, "min-and-max") && len(ops) >= 2:
+						// the candidate equals both bounds: the strict operator(s) reject it
+						if ops[0] == "gt" {
+							attrs = append(attrs, "minimum")
+						}
+						if ops[1] == "lt" {
+							attrs = append(attrs, "maximum")
+						}
+						attr = ""
+					case strings.Contains(cl, "max"):
 						attr = "maximum"
-					} else {
+					default:
 						attr = "minimum"
 					}
 				}
-				attrs = append(attrs, attr)
+				if attr != "" {
+					attrs = append(attrs, attr)
+				}
 				if ix >= 0 && itemIdx < 0 {
 					itemIdx = ix
 				}
 			}
 		}
+		if len(attrs) == 0 && vd.accepted && rlIsInt(d.Kind) {
+			// no single rule explains the rejection (both bounds exclude the value): the exclusive flags that are set
+			if d.Xmin == "t" {
+				attrs = append(attrs, "xmin")
+			}
+			if d.Xmax == "t" {
+				attrs = append(attrs, "xmax")
+			}
+		}
+		// a candidate equal to both bounds is named after the culprit's side
+		sideMin, sideMax := false, false
+		for _, a := range attrs {
+			sideMin = sideMin || a == "minimum" || a == "xmin"
+			sideMax = sideMax || a == "maximum" || a == "xmax"
+		}
+		fixSide := func(cl string) string {
+			if sideMin && !sideMax {
+				return strings.Replace(cl, "at-min-and-max", "at-min", 1)
+			}
+			if sideMax && !sideMin {
+				return strings.Replace(cl, "at-min-and-max", "at-max", 1)
+			}
+			return cl
+		}
+		class = fixSide(class)
 		seenW := map[string]bool{}
 		var why []string
 		arrayLevel := false
@@ -515,7 +560,7 @@ func rlValidateDriver(raw json.RawMessage) *Out {
 		}
 		if len(why) == 0 {
 			why = []string{"several-rules"}
-			arrayLevel = d.Card != "single"
+			arrayLevel = d.Card != "single" && len(cc.Bad) == 0
 		}
 		verdict := "rejects"
 		if vd.accepted {
@@ -531,7 +576,7 @@ func rlValidateDriver(raw json.RawMessage) *Out {
 					variant = "ruled-items"
 				}
 			} else if itemIdx >= 0 && itemIdx < len(cc.Cand.Items) {
-				class = "item-" + rlCandClass(rlItemDecl(d), cc.Cand.Items[itemIdx])
+				class = "item-" + fixSide(rlCandClass(rlItemDecl(d), cc.Cand.Items[itemIdx]))
 			}
 		}
 		if d.Kind == "enum" && !c.Opts.EnumNums && !arrayLevel {
